@@ -641,7 +641,10 @@ lyd_validate_cases(struct lyd_node **first, const struct lys_module *mod, const 
         iter = NULL;
         match = NULL;
         while ((match = lys_getnext_data(match, *first, &iter, scase, NULL))) {
-            if (match->flags & LYD_NEW) {
+            if (match->flags & LYD_DEFAULT) {
+                /* default nodes (also an empty non-presence container) do not make the case exist */
+                continue;
+            } else if (match->flags & LYD_NEW) {
                 /* a new case data found, nothing more to look for */
                 found = 2;
                 break;
@@ -679,12 +682,25 @@ lyd_validate_cases(struct lyd_node **first, const struct lys_module *mod, const 
 
     LOG_LOCBACK(1, 0);
 
-    if (old_case && new_case) {
-        /* auto-delete old case */
+    if (!new_case) {
+        /* the old case, if any, is kept */
+        new_case = old_case;
+    }
+    if (!new_case) {
+        /* no existing case, nothing to delete */
+        return LY_SUCCESS;
+    }
+
+    /* auto-delete the old case and any (default) nodes of the other cases */
+    LY_LIST_FOR((struct lysc_node *)choic->cases, scase) {
+        if (scase == new_case) {
+            continue;
+        }
+
         iter = NULL;
         match = NULL;
         to_del = NULL;
-        while ((match = lys_getnext_data(match, *first, &iter, old_case, NULL))) {
+        while ((match = lys_getnext_data(match, *first, &iter, scase, NULL))) {
             lyd_del_move_root(first, to_del, mod);
 
             /* free previous node */
